@@ -252,7 +252,10 @@ class Interp:
                 fr.locals[0] = self.from_json(j["ref"])
                 return ("ref", fr, 0, [])
             if "_variant" in j:
-                return ("adt", "?", j["_variant"], [])
+                # a field-less enum constant: its type is found by variant name and discriminant
+                cands = [p_ for p_, a_ in self.prog.adts.items() if a_.get("kind") == "Enum" and any(
+                    vv["name"] == j["_variant"] and ("_discr" not in j or str(vv.get("discr")) == str(j["_discr"])) for vv in a_.get("variants", []))]
+                return ("adt", cands[0] if len(cands) == 1 else "?", j["_variant"], [])
             if "_t" in j:
                 return ("adt", j["_t"], j["_t"].split("::")[-1], [self.from_json(v) for k, v in j.items() if k != "_t"])
         return UNKNOWN
@@ -388,6 +391,12 @@ class Interp:
             return copy_val(self.read_place(fr, rv["p"]))
         if k == "Cast":
             v = self.operand(fr, rv["a"])
+            if rv["ck"] == "IntToInt" and isinstance(v, tuple) and v[0] == "adt" and not v[3]:
+                # a field-less enum cast to an integer: its discriminant
+                try:
+                    v = self.discr_of(v, rv["to"])
+                except Undecided:
+                    return UNKNOWN
             if rv["ck"] == "IntToInt" and isinstance(v, int):
                 bits = INT_BITS.get(rv["to"], 64)
                 fb = INT_BITS.get(rv["from"], 64)
@@ -1031,6 +1040,10 @@ def m_int_op(name):
             r = abs(a - b)
         elif name in ("unsigned_abs", "abs"):
             r = abs(a)
+        elif name in ("rem_euclid", "div_euclid"):
+            if b == 0:
+                raise Panic("%s by zero" % name)
+            r = a % abs(b) if name == "rem_euclid" else (a - a % abs(b)) // b
         else:
             return NotImplemented
         return r & ((1 << bits) - 1)
@@ -1077,6 +1090,35 @@ def m_range_contains_const(it, args, callee, depth):
         return v - (1 << bits) if ty.startswith("i") and (v >> (bits - 1)) & 1 else v
     lo, hi, x = sg(lo), sg(hi), sg(x)
     return int(lo <= x <= hi) if rg[1].endswith("RangeInclusive") else int(lo <= x < hi)
+
+
+def m_int_bytes(which):
+    """{from,to}_{be,le}_bytes on integer constants"""
+    def f(it, args, callee, depth):
+        v = deref_all(it, args[0])
+        import re as _re9
+        c_ = callee or {}
+        m = _re9.search(r"<impl ([iu](?:8|16|32|64|128|size))>", " ".join([c_.get("path", ""), c_.get("full", "")]))
+        if not m:
+            return NotImplemented
+        nbytes = INT_BITS.get(m.group(1), 64) // 8
+        if which.startswith("from"):
+            if not (isinstance(v, tuple) and v[0] == "array" and len(v[1]) == nbytes):
+                return NotImplemented
+            bs = [deref_all(it, x) for x in v[1]]
+            if not all(isinstance(b, int) and not isinstance(b, bool) for b in bs):
+                return NotImplemented
+            if which == "from_le":
+                bs = bs[::-1]
+            r = 0
+            for b in bs:
+                r = (r << 8) | (b & 0xFF)
+            return r
+        if not isinstance(v, int) or isinstance(v, bool):
+            return NotImplemented
+        bs = [(v >> (8 * (nbytes - 1 - i))) & 0xFF for i in range(nbytes)]
+        return ("array", bs if which == "to_be" else bs[::-1])
+    return f
 
 
 def m_int_bits(name):
@@ -1431,11 +1473,14 @@ STD_MODELS = [
     (">::abs_diff", m_int_op("abs_diff")),
     ("cmp::Ord::max", m_ord_minmax("max")), ("cmp::Ord::min", m_ord_minmax("min")),
     ("ops::range::Range::<Idx>::contains", m_range_contains_const), ("ops::range::RangeInclusive::<Idx>::contains", m_range_contains_const),
+    (">::from_be_bytes", m_int_bytes("from_be")), (">::from_le_bytes", m_int_bytes("from_le")),
+    (">::to_be_bytes", m_int_bytes("to_be")), (">::to_le_bytes", m_int_bytes("to_le")),
     (">::leading_zeros", m_int_bits("leading_zeros")),
     (">::trailing_zeros", m_int_bits("trailing_zeros")),
     (">::count_ones", m_int_bits("count_ones")),
     ("ops::range::RangeInclusive::<Idx>::new", lambda it, args, callee, depth: ("adt", "core::ops::range::RangeInclusive", "RangeInclusive", [deref_all(it, args[0]), deref_all(it, args[1]), 0])),
     (">::unsigned_abs", m_int_op("unsigned_abs")),
+    ("i32>::rem_euclid", m_int_op("rem_euclid")), ("i64>::rem_euclid", m_int_op("rem_euclid")), ("i32>::div_euclid", m_int_op("div_euclid")),
     ("i32>::abs", m_int_op("abs")), ("i64>::abs", m_int_op("abs")), ("i16>::abs", m_int_op("abs")), ("i8>::abs", m_int_op("abs")), ("isize>::abs", m_int_op("abs")),
     ("core::ops::try_trait::Try::branch", m_try_branch),
     ("core::ops::try_trait::FromResidual::from_residual", m_from_residual),
